@@ -1,4 +1,4 @@
-"""Rounding oracle (Appendix A.1), proved summaries of the rounding helpers, contract U of the unsigned kernels.
+"""Rounding oracle (Appendix A.1), proved summaries of the rounding helpers, summaries U of the unsigned kernels (proved in C16: U-KERNEL).
 
 `check_rounded` decides, from the facts of one abstract path, whether a value V
 is RoundSpec(mode, N/D): it recovers the floor quotient candidate FQ in {V, V-1}
@@ -212,7 +212,7 @@ def caller_summaries(db):
     }
 
 
-# ----------------------------------------------------------------------------- contract U (assumed, not proved)
+# ----------------------------------------------------------------------------- summaries U of the unsigned kernels (proved by C16 U-KERNEL)
 def _deref(I, st, v):
     from .models import deref
     return deref(I, st, v)
@@ -233,7 +233,7 @@ def summ_u256_idiv_u128(I, st, args, fid):
     rh, rl, y = args
     xh, xl = _deref(I, st, rh), _deref(I, st, rl)
     if not st.sign(y.p) <= POS:
-        raise Stop('contract U: divisor of u256_idiv_u128 not known positive')
+        raise Stop('summary U: divisor of u256_idiv_u128 not known positive')
     W = st.norm(padd(pscale(xh.p, 2**128), xl.p))
     Q = I.tdiv_atom(st, W, st.norm(y.p))
     R = st.norm(padd(W, pmul(Q, st.norm(y.p)), -1))
